@@ -183,7 +183,18 @@ impl FolderMerge for Folder {
                                 None
                             };
 
-                        access_point.update_secret(id, meta, secret).await?;
+                        // The log may order an update after the
+                        // secret was deleted (replaying the log then
+                        // yields the updated secret) so create it
+                        // when there is nothing to update
+                        if access_point
+                            .update_secret(id, meta.clone(), secret.clone())
+                            .await?
+                            .is_none()
+                        {
+                            let row = SecretRow::new(*id, meta, secret);
+                            access_point.create_secret(&row).await?;
+                        }
 
                         #[cfg(feature = "search")]
                         if let (
